@@ -20,6 +20,9 @@ pub struct Scripted {
     blk: usize,
     slice: usize,
     window: u64,
+    /// the matcher configures itself in reset(): until then it reports the smallest window (the trait allows window_size()
+    /// to change with reset; the frame header must carry the value that holds while the frame is produced)
+    configured: bool,
 }
 impl Matcher for Scripted {
     fn get_next_space(&mut self) -> Vec<u8> {
@@ -49,9 +52,10 @@ impl Matcher for Scripted {
         self.hist.clear();
         self.last.clear();
         self.blk = 0;
+        self.configured = true;
     }
     fn window_size(&self) -> u64 {
-        self.window
+        if self.configured { self.window } else { 1024 }
     }
 }
 
@@ -61,7 +65,7 @@ pub fn roundtrip(data: &[u8], slice: usize, plans: Vec<Parse>, window: u64) -> O
 }
 
 pub fn roundtrip_frame(data: &[u8], slice: usize, plans: Vec<Parse>, window: u64) -> (Option<String>, Vec<u8>) {
-    let m = Scripted { hist: vec![], last: vec![], plans: Rc::new(RefCell::new(plans)), blk: 0, slice, window };
+    let m = Scripted { hist: vec![], last: vec![], plans: Rc::new(RefCell::new(plans)), blk: 0, slice, window, configured: false };
     let d2 = data.to_vec();
     let res = std::panic::catch_unwind(std::panic::AssertUnwindSafe(move || {
         let mut out = Vec::new();
@@ -83,7 +87,25 @@ pub fn roundtrip_frame(data: &[u8], slice: usize, plans: Vec<Parse>, window: u64
             };
             let ref_ok = r.as_ref().map(|v| v == data).unwrap_or(false);
             let our_ok = o.as_ref().map(|v| v == data).unwrap_or(false);
-            let verdict = if ref_ok && our_ok {
+            // every offset the decoder executed lies within the window the frame declares
+            let mut beyond: Option<String> = None;
+            if our_ok {
+                if let Ok(lay) = crate::frames::walk_frame(&out) {
+                    let win = lay["win"].as_u64().unwrap_or(u64::MAX);
+                    ruzstd::verif::take();
+                    ruzstd::verif::set_mask(ruzstd::verif::SEQ);
+                    let mut v = Vec::with_capacity(data.len() + 16);
+                    let _ = FrameDecoder::new().decode_all_to_vec(&out, &mut v);
+                    let evs = ruzstd::verif::take();
+                    ruzstd::verif::set_mask(0);
+                    if let Some(e) = evs.iter().find(|e| e.kind == "seq" && e.args[3] > win) {
+                        beyond = Some(format!("a match offset of {} lies beyond the window of {} bytes that the frame declares (the matcher announced {})", e.args[3], win, window));
+                    }
+                }
+            }
+            let verdict = if let Some(b) = beyond {
+                Some(b)
+            } else if ref_ok && our_ok {
                 None
             } else {
                 Some(format!("the frame does not decode to the input: libzstd {} ruzstd {}",
